@@ -807,6 +807,7 @@ class Ev:
         self.ids = {}  # python id -> IdV, for id(x) used as dictionary keys
         self.input_reply = None  # what input() answers (Str), when the evaluated code may ask the user
         self.module_cache = {}
+        self.class_attrs = {}
         self.memo_calls = {}
         self.decorated_cache = {}
         self.ctor_models = {}  # class name -> python function(args, kwargs) giving the model of the constructed object
@@ -1099,6 +1100,8 @@ class Ev:
             return ("method", v, attr)
         if isinstance(v, ClassRef):
             c = v.cls
+            if (id(c), attr) in self.class_attrs:
+                return self.class_attrs[(id(c), attr)]
             if c.is_enum and attr == "__members__":
                 return DictV({k: EnumMember(c, k, self.ev(x, {"__mod__": c.mod}, c.mod)) for k, x in c.enum_members().items()})
             if c.is_enum and attr in c.enum_members():
@@ -1301,6 +1304,10 @@ class Ev:
             o = self.ev(target.value, env, mod)
             if isinstance(o, ElemV) and target.attr in ("text", "tail", "tag"):
                 setattr(o, target.attr, v)
+                return
+            if isinstance(o, ClassRef):
+                # a class attribute assigned at run time (a class used as a namespace of settings)
+                self.class_attrs[(id(o.cls), target.attr)] = v
                 return
             if not isinstance(o, Obj):
                 raise AnalysisError("attribute store on %r at line %d" % (o, target.lineno))
